@@ -145,6 +145,23 @@ func init() {
 		"(*sync.Cond).Signal":     func(fr *frame, a []value) value { fr.i.m.condSignal(a[0].(*value), false); return nil },
 		"(*sync.Cond).Broadcast":  func(fr *frame, a []value) value { fr.i.m.condSignal(a[0].(*value), true); return nil },
 		"(*sync.Once).Do":         extOnceDo,
+		// unique.Make: handles are pointers to one canonical cell per distinct value
+		// (the real implementation uses weak maps and runtime internals)
+		"unique.Make": func(fr *frame, a []value) value {
+			m := fr.i.m
+			t := fr.fn.Signature.Params().At(0).Type()
+			for _, u := range m.uniq {
+				if types.Identical(u.t, t) {
+					if eq, ok := equalsV(m, t, *u.cell, a[0]).(bool); ok && eq {
+						return structure{u.cell}
+					}
+				}
+			}
+			v := copyVal(a[0])
+			cell := &v
+			m.uniq = append(m.uniq, uniqEntry{t, cell})
+			return structure{cell}
+		},
 
 		// --- sync/atomic ---
 		"sync/atomic.LoadInt32":   atomicLoad,
